@@ -77,8 +77,8 @@ func run(r *ev.Run) {
 	r.Assume("documented refusals are accepted as errors: sort by mod; sort by created/-created/-mod on constraints that are not syntactically permanode-only; created-ascending when a matched permanode has no time; classic mode (no corpus) is only given the fragment implemented without a corpus and the sorts unsorted/blobref")
 	search.VerifSetCandSourceHook(func(name string) { curPlanner = name })
 
-	nWorlds := r.Pick(14, 80)
-	nCons := r.Pick(400, 900)
+	nWorlds := r.Pick(14, 56)
+	nCons := r.Pick(400, 850)
 	wrng := r.Rand("worlds")
 	for wi := 0; wi < nWorlds; wi++ {
 		label := fmt.Sprintf("w%d", wi)
@@ -93,7 +93,11 @@ func run(r *ev.Run) {
 			continue
 		}
 		// facts read back from the index: MIME
-		for ref, f := range w.files {
+		for _, b := range w.blobs { // in generation order: the pools below feed the constraint generator
+			ref, f := b.Ref, w.files[b.Ref]
+			if f == nil {
+				continue
+			}
 			fi, err := modes[1].ix.GetFileInfo(context.Background(), ref)
 			if err != nil {
 				r.Inconclusive(fmt.Sprintf("file %v not indexed: %v", ref, err))
@@ -293,6 +297,10 @@ func checkConstraint(r *ev.Run, w *sworld, wid string, ci int, c *search.Constra
 	}
 	if ci < 3 {
 		r.Sample(map[string]any{"world": wid, "constraint": json.RawMessage(cj), "reference_matches": len(M), "blobs_in_world": len(w.allRefs)})
+	}
+	if w.valueModelMismatch != "" {
+		r.Inconclusive("harness self-check failed, the two attribute folds of the reference model disagree: " + w.valueModelMismatch)
+		w.valueModelMismatch = ""
 	}
 }
 
